@@ -20,13 +20,25 @@ META = {
             'tools/s2c/gzip.py + crash.py (regex translation of calculateCRC32/compressFile); extraction (ExtrOcamlBasic) and '
             'ocaml/drv_gzip.ml; harness/h_gzip.cpp, h_crash.cpp; Python zlib/gzip and gzip(1) as independent decoders; strace. '
             'Modelled, not verified: zlib deflate/inflate (Section hypotheses), qCompress framing (validated on samples), '
-            'QFile buffering, toLocal8Bit (UTF-8 here; arbitrary bytes enter through pre-existing active files). Empty input files are outside '
+            'QFile buffering, toLocal8Bit (UTF-8, and the non-UTF-8 locale codecs ISO-8859-1/-15, windows-1252, KOI8-R, Shift_JIS set with '
+            'QTextCodec::setCodecForLocale; arbitrary bytes enter through pre-existing active files). Empty input files are outside '
             '(rotate() is only reached with size > 0; qCompress of empty data is 4 bytes and the body would be empty).',
     'design_ref': 'DESIGN.md section 4, C08',
     'engine': 'coq+extraction+harness',
 }
 
-KINDS = ('zeros', 'newlines', 'text', 'random7', 'unicode')
+KINDS = ('zeros', 'newlines', 'text', 'random7', 'unicode', 'nonascii')
+# 8-bit locale codecs (the codec toLocal8Bit() and so the sink's write() use): Qt name -> (Python name, characters the
+# records are drawn from besides ASCII).  Every pool also holds characters the codec cannot represent (written as '?').
+# In all of them a non-ASCII character takes FEWER bytes in the file than in UTF-8, so any size bookkeeping that is
+# not done on the bytes actually written disagrees with the file.
+CODECS = {
+    'ISO-8859-1': ('latin-1', [(0xa1, 0xff), (0xe0, 0xff), (0x20ac, 0x20ac), (0x4e2d, 0x4e2d)]),
+    'ISO-8859-15': ('iso8859-15', [(0xa1, 0xa3), (0xc0, 0xff), (0x20ac, 0x20ac), (0x160, 0x161), (0x152, 0x153), (0x3b1, 0x3b1)]),
+    'windows-1252': ('cp1252', [(0xa1, 0xff), (0x20ac, 0x20ac), (0x201c, 0x201d), (0x2013, 0x2014), (0x2122, 0x2122), (0x416, 0x416)]),
+    'KOI8-R': ('koi8-r', [(0x410, 0x44f), (0x410, 0x44f), (0x401, 0x401), (0x451, 0x451), (0xe9, 0xe9)]),
+    'Shift_JIS': ('shift_jis', [(0x3041, 0x3093), (0x30a1, 0x30f6), (0x65e5, 0x65e5), (0x672c, 0x672c), (0x8a9e, 0x8a9e), (0xe9, 0xe9)]),
+}
 WORDS = ('connection', 'timeout', 'user', 'id=', 'error', 'warning', 'started', 'stopped', 'request', '/api/v1/items', 'GET',
          'POST', '200', '404', '500', 'ms', 'thread', 'retry', 'cache', 'miss', 'hit', '0x7ffd', 'null', 'ok', ' ', ' ', ' ', ': ', '-')
 
@@ -48,15 +60,16 @@ def run_model(model, lines, timeout=900):
     return p.returncode, p.stdout.decode().splitlines(), p.stderr.decode()
 
 
-def gen_records(kind, size, rseed):
+def gen_records(kind, size, rseed, codec=None):
     """records (unicode strings) whose UTF-8 bytes plus one newline each total exactly `size` bytes"""
     rng = random.Random(rseed)
     recs, remaining = [], size
+    pool = CODECS[codec][1] if kind == 'nonascii' else None
     while remaining > 0:
         if kind == 'newlines':
             r = 0
         else:
-            cap = {'zeros': 5000, 'text': 120, 'random7': 3000, 'unicode': 2000}[kind]
+            cap = {'zeros': 5000, 'text': 120, 'random7': 3000, 'unicode': 2000, 'nonascii': 160}[kind]
             r = min(remaining - 1, rng.randint(0, cap) if rng.random() < 0.9 else rng.randint(0, 8 * cap))
         if kind == 'zeros':
             s = '\0' * r
@@ -69,6 +82,18 @@ def gen_records(kind, size, rseed):
             s = s[:r]
         elif kind == 'random7':
             s = ''.join(map(chr, rng.choices(range(128), k=r)))
+        elif kind == 'nonascii':
+            out, left = [], r
+            while left > 0:
+                if rng.random() < 0.45:
+                    cp = rng.randint(0x20, 0x7e)
+                else:
+                    lo, hi = rng.choice(pool); cp = rng.randint(lo, hi)
+                n = len(chr(cp).encode('utf-8'))
+                if n > left:
+                    cp, n = 0x61, 1
+                out.append(chr(cp)); left -= n
+            s = ''.join(out)
         else:
             out, left = [], r
             while left > 0:
@@ -115,8 +140,11 @@ def gen_raw(kind, size, rseed):
     return bytes(out[:size])
 
 
-def content_of(recs):
-    return b''.join(r.encode('utf-8') + b'\n' for r in recs)
+def content_of(recs, codec=None):
+    """the bytes a FileSink writes for these records when the locale codec is `codec` (None: UTF-8); characters the
+    codec cannot represent become '?' (QTextCodec's and Python's replacement alike)"""
+    enc = CODECS[codec][0] if codec else 'utf-8'
+    return b''.join(r.encode(enc, 'replace') + b'\n' for r in recs)
 
 
 def run_case(impl, case):
@@ -158,8 +186,12 @@ def run_case(impl, case):
     else:
         lines += ['W ' + r.encode('utf-8').hex() for r in case['records']]
         args = [logdir, str(case['L']), str(case.get('N', 0)), '4', 'u']
+    if case.get('codec'):
+        args.append(case['codec'])       # the process's 8-bit locale codec: what toLocal8Bit() and the sink's write() use
+        lines.append('P')
     rc, out, err = vlib.run_lines(impl, lines, args, timeout=600, env={'LC_ALL': 'C.UTF-8'})
     res = {'dir': d, 'rc': rc, 'stderr': err[-300:], 'answers': out, 'files': {}, 'expected': {}}
+    res['codec_probe'] = next((l[2:].strip() for l in out if l.startswith('P ')), None)
     if os.path.isdir(logdir):
         for f in sorted(os.listdir(logdir)):
             if os.path.isfile(os.path.join(logdir, f)):
@@ -224,7 +256,7 @@ def make_cases(chk):
     bsizes = [1, 2, 3, 17, 300, 4096, 8191, 8192, 8193, 16384, 16385, 24576, 65535, 65536, 65537, 70001]
     if thorough:
         bsizes += [32768, 131072, 131073, 262144 + 5]
-    for kind in KINDS:
+    for kind in KINDS[:5]:          # 'nonascii' comes with a locale codec, below
         for s in bsizes:
             if kind == 'newlines' and s > 70001:
                 continue
@@ -242,6 +274,21 @@ def make_cases(chk):
         kind = rng.choice(('text', 'random7', 'unicode', 'zeros'))
         cases.append({'mode': 'size', 'kind': kind, 'size': rng.choice((6000, 20000, 40000)), 'L': rng.choice((64, 1000, 8192, 8193, 16384)),
                       'N': 0, 'rseed': rng.randrange(1 << 30)})
+    # records with non-ASCII text written through send() while the process's 8-bit locale codec is NOT UTF-8 (LC_ALL=C
+    # selects UTF-8 in this Qt build, so the codec is set explicitly): the file holds toLocal8Bit() bytes, whose number
+    # differs from the UTF-8 length of the text; size-triggered rotations (one sink object lives through many files)
+    # and start-up rotations
+    names = list(CODECS)[1:]
+    rng.shuffle(names)
+    names = ['ISO-8859-1'] + names       # Latin-1 (what LC_ALL=C means for most Qt 5 builds) is in every run
+    for n, codec in enumerate(names if thorough else names[:3]):
+        cases.append({'mode': 'size', 'kind': 'nonascii', 'codec': codec, 'size': rng.choice((3000, 9000, 20000)),
+                      'L': (64, 1000, 8192, 300, 8193)[n % 5], 'N': 0, 'rseed': rng.randrange(1 << 30)})
+        if thorough or n == 0:
+            cases.append({'mode': 'startup', 'kind': 'nonascii', 'codec': codec, 'size': rng.choice((17, 300, 8193, 70001)), 'rseed': rng.randrange(1 << 30)})
+    if thorough:
+        for codec in names:
+            cases.append({'mode': 'size', 'kind': 'nonascii', 'codec': codec, 'size': 40000, 'L': rng.choice((100, 2000, 16384)), 'N': 0, 'rseed': rng.randrange(1 << 30)})
     # pre-existing active files with ANY bytes, rotated and compressed at start-up
     raw = [('urandom', 65536), ('urandom', 65537), ('urandom', 8193), ('urandom', 1), ('crlf', 300), ('crlf', 70000),
            ('ff', 65536), ('zero', 100000), ('badutf8', 8192), ('mixed', 131073)]
@@ -263,12 +310,12 @@ def make_cases(chk):
         if c['mode'] in ('raw', 'blocked', 'leftover'):
             c['raw'] = gen_raw(c['kind'], c['size'], c['rseed']); c['records'] = []
         else:
-            c['records'] = gen_records(c['kind'], c['size'], c['rseed'])
+            c['records'] = gen_records(c['kind'], c['size'], c['rseed'], c.get('codec'))
     return cases
 
 
 def describe(c, with_records=False):
-    d = {k: c[k] for k in ('mode', 'size', 'rseed', 'L', 'N') if k in c}
+    d = {k: c[k] for k in ('mode', 'size', 'rseed', 'L', 'N', 'codec', 'shrunk_from') if k in c}
     d['content'] = c['kind']
     if with_records and c['size'] <= 4096:
         if c['mode'] in ('raw', 'blocked', 'leftover'):
@@ -277,7 +324,8 @@ def describe(c, with_records=False):
             d['records_utf8_hex'] = [r.encode('utf-8').hex() for r in c['records']]
     d['how'] = ("leftover mode: app.<today>.1.log = gen_raw(...) and the first half of gzip.compress of it as app.<today>.1.log.gz planted, then a "
                 "sink with Compression, max size 64, count N writes three 51-byte records; blocked mode: as raw mode, with a directory named app.<today>.1.log.gz created first; raw mode: app.log pre-written with checks.c08.gen_raw(content, size, rseed), then a sink with RotationOnStartup|Compression writes 'z'; "
-                "records = checks.c08.gen_records(content, size, rseed); startup mode: write them with rotation off, restart the sink with "
+                "records = checks.c08.gen_records(content, size, rseed, codec); codec (when present) = 6th argument of h_gzip = QTextCodec::setCodecForLocale, "
+                "the records are then written as toLocal8Bit() in that codec; startup mode: write them with rotation off, restart the sink with "
                 "RotationOnStartup|Compression, write 'z'; size mode: Compression, max size L")
     return d
 
@@ -290,6 +338,17 @@ def evaluate_case(c, res, tmp_paths):
         return out
     files, exp = res['files'], res['expected']
     gz = [f for f in files if f.endswith('.gz')]
+    if c.get('codec'):
+        probe = '\u00e9\u20ac'.encode(CODECS[c['codec']][0], 'replace').hex()
+        if res.get('codec_probe') != probe:
+            out['harness'] = 'locale codec %s is not in force in the harness: U+00E9 U+20AC -> %s, expected %s' % (c['codec'], res.get('codec_probe'), probe)
+            return out
+        if c['mode'] == 'size':
+            # every rotated file of the history: the snapshot of the replaced file must be what the records written
+            # since the previous rotation encode to in this codec (the whole history = concatenation, in order)
+            whole = b''.join(exp[g[:-3]] for g in sorted(gz, key=lambda n: (n.split('.')[-4], int(n.split('.')[-3]))) if g[:-3] in exp)
+            if not content_of(c['records'], c['codec']).startswith(whole) or (gz and not whole):
+                out['bad'].append(('snapshot', 'the rotated files do not hold the records written, encoded in %s (harness/encoding problem?)' % c['codec']))
     if c['mode'] == 'blocked':
         # no .gz can be created: the rotated original must stay, with exactly the old content
         plains = [f for f in files if re.match(r'app\.\d{4}-\d\d-\d\d\.\d+\.log$', f)]
@@ -301,7 +360,7 @@ def evaluate_case(c, res, tmp_paths):
                                'directory has %s, the %d bytes of the old log are in no file' % (sorted(files) + res.get('subdirs', []), len(c['raw']))))
         return out
     if c['mode'] in ('startup', 'raw'):
-        want = c['raw'] if c['mode'] == 'raw' else content_of(c['records'])
+        want = c['raw'] if c['mode'] == 'raw' else content_of(c['records'], c.get('codec'))
         if len(gz) != 1:
             out['bad'].append(('no-gz', 'expected exactly one .gz after the start-up rotation, directory has %s' % sorted(files)))
         for g in gz:
@@ -342,6 +401,33 @@ def evaluate_case(c, res, tmp_paths):
                           'sha': hashlib.sha1(e).hexdigest()})
     # unrotated plain files left over must not coexist with their .gz (checked above); active file is free
     return out
+
+
+def shrink_records(impl, c, kind):
+    """a smaller record list (then shorter records) on which the real sink still produces a finding of this kind"""
+    def fails(recs):
+        if not recs:
+            return False
+        cc = dict(c, records=list(recs))
+        res = run_case(impl, cc)
+        try:
+            return any(k == kind for k, _ in evaluate_case(cc, res, None)['bad'])
+        finally:
+            shutil.rmtree(res['dir'], ignore_errors=True)
+    if not fails(c['records']):
+        return c                                     # found by the model-side oracle only: keep the case as it is
+    recs = vlib.shrink_list(c['records'], fails, max_steps=80)
+    for i in range(len(recs)):                      # shorten each surviving record: halve while it still fails
+        for _ in range(12):
+            r = recs[i]
+            if len(r) <= 1:
+                break
+            cand = [recs[:i] + [h] + recs[i + 1:] for h in (r[:len(r) // 2], r[len(r) // 2:])]
+            nxt = next((x for x in cand if fails(x)), None)
+            if nxt is None:
+                break
+            recs = nxt
+    return dict(c, records=recs, size=len(content_of(recs)), shrunk_from=c['size'])
 
 
 def qcompress_leg(chk, impl, model, level):
@@ -505,7 +591,8 @@ def run():
     chk.assumptions = ['inflate (deflate d ++ rest) = Some (d, rest) for zlib (checked on every sampled file with Python zlib.decompressobj(-15))',
                        'a deflate stream is never empty; the zlib header is two bytes; qCompress = be32 length ++ zlib stream (checked on samples)',
                        'file bytes are < 256 (wf_bytes); the rotated file is non-empty (rotate() is reached only with size > 0)',
-                       'records written through the sink are UTF-8 here (toLocal8Bit), incl. NUL, control bytes, newlines; ARBITRARY bytes (random, CR/CRLF, 0x00/0xFF runs, '
+                       'records written through the sink are toLocal8Bit() of the text: UTF-8 (incl. NUL, control bytes, newlines) and, in the codec sub-runs, '
+                       'single/double-byte non-UTF-8 locale codecs with non-ASCII text (file bytes != UTF-8 length of the text); ARBITRARY bytes (random, CR/CRLF, 0x00/0xFF runs, '
                        'invalid UTF-8, already-compressed data) are covered by pre-existing active files rotated and compressed at start-up']
     chk.proof(vlib.proof_leg('Properties_C08', ['gzip']))
     model = vlib.build_model('gzip')
@@ -565,6 +652,8 @@ def run():
                     disagree.append((i, g))
             for k, txt in ev['bad']:
                 falsified.append((i, {'name': '-', 'py_bad': [k]}, txt))
+            if ev.get('harness'):
+                chk.broke(ev['harness'], {'kind': 'harness', 'case': describe(c)})
         seen = set()
         for i, g, txt in sorted(falsified, key=lambda t: cases[t[0]]['size']):
             kind = (g.get('py_bad') or ['gz-invalid'])[0]
@@ -572,6 +661,10 @@ def run():
                 continue
             seen.add(kind)
             c = cases[i]
+            if c['mode'] in ('size', 'startup') and c['size'] <= 70001 and kind.startswith('gz-'):
+                c = shrink_records(impl, c, kind)
+                if 'shrunk_from' in c:
+                    txt += ' [shrunk from %d bytes to the records below]' % c['shrunk_from']
             rep = describe(c, True)
             rep.update({'kind': kind, 'file': g.get('name'), 'impl_header': g.get('header'), 'impl_trailer': g.get('trailer'),
                         'model_header': g.get('model_header'), 'model_trailer': g.get('model_trailer'),
@@ -588,6 +681,7 @@ def run():
         n_k = removal_leg(chk, crash)
         n_c = concurrent_leg(chk, impl, model)
         allg = [g for ev in evals for g in ev['gz']]
+        n_locdiff = sum(1 for c in cases if c.get('codec') and content_of(c['records'], c['codec']) != content_of(c['records']))
         sizes = [g['expected_len'] for g in allg]
         chk.cov.update({
             'evaluations': n_gz + n_q + n_k + n_c + sum(1 for c in cases if c['mode'] == 'blocked'), 'concurrent_sink_files': n_c, 'gz_files_checked': n_gz, 'oracle_evaluated_on_impl_files': n_oracle, 'judged_by_zlib_only': n_zlib_only,
@@ -599,6 +693,9 @@ def run():
                     'kill-before-unlink runs; non-trivial = distinct content of >= 2 bytes',
             'kinds': {k: sum(1 for c in cases if c['kind'] == k) for k in KINDS + RAW_KINDS},
             'modes': {m: sum(1 for c in cases if c['mode'] == m) for m in ('startup', 'size', 'raw', 'blocked', 'leftover')},
+            'locale_codecs': {k: sum(1 for c in cases if c.get('codec') == k) for k in CODECS},
+            'gz_files_written_under_non_utf8_codec': sum(len(ev['gz']) for c, ev in zip(cases, evals) if c.get('codec')),
+            'non_utf8_files_whose_byte_count_differs_from_utf8_length': n_locdiff,
             'size_histogram': {'>=4MiB': sum(1 for s in sizes if s >= (4 << 20)), '1': sum(1 for s in sizes if s == 1), '2-8191': sum(1 for s in sizes if 2 <= s < 8192),
                                '8192': sum(1 for s in sizes if s == 8192), '8193-65535': sum(1 for s in sizes if 8192 < s < 65536),
                                '65536': sum(1 for s in sizes if s == 65536), '65537-1MiB': sum(1 for s in sizes if 65536 < s < (1 << 20)),
@@ -628,6 +725,8 @@ def replay(path):
     model = vlib.build_model('gzip'); impl = vlib.build_harness('gzip')
     kind = c['content']
     case = {'mode': c['mode'], 'kind': kind, 'size': c['size'], 'rseed': c['rseed'], 'L': c.get('L', 0), 'N': c.get('N', 0)}
+    if c.get('codec'):
+        case['codec'] = c['codec']
     if c['mode'] in ('raw', 'blocked', 'leftover'):
         case['raw'] = bytes.fromhex(r['raw_hex']) if r.get('raw_hex') else gen_raw(kind, c['size'], c['rseed'])
         case['records'] = []
@@ -635,12 +734,12 @@ def replay(path):
         case['records'] = [bytes.fromhex(h).decode('utf-8') for h in r['records_utf8_hex']]
     else:
         # the content kind is stored under 'kind' of the case description
-        case['records'] = gen_records(kind, c['size'], c['rseed'])
+        case['records'] = gen_records(kind, c['size'], c['rseed'], c.get('codec'))
     res = run_case(impl, case)
     try:
         ev = evaluate_case(case, res, None)
         rc, mo, _ = run_model(model, ev['model_lines'])
-        print('case           ', {k: case[k] for k in ('mode', 'kind', 'size', 'rseed', 'L', 'N')})
+        print('case           ', {k: case[k] for k in ('mode', 'kind', 'size', 'rseed', 'L', 'N', 'codec') if k in case})
         print('directory      ', {f: len(b) for f, b in res['files'].items()})
         for j, g in enumerate(ev['gz']):
             print('implementation ', g['name'], 'header', g['header'], 'trailer', g['trailer'], 'python verdicts', g['py_bad'])
